@@ -717,6 +717,7 @@ func rulesC02(c *Ctx) {
 	silentPathRule(c, "C02.silentpath")
 	openerRule(c, "C02.opener")
 	printGateRule(c, "C02.gate")
+	fmtConstRule(c, "C02.fmtconst")
 	quoteArgsRule(c, "C02.quoteargs")
 	strconvRule(c, "C02.strconv")
 	// printing a node reads nothing but the node: a scratch buffer shared by
